@@ -1,8 +1,8 @@
 (* C35 — Step lifecycle telemetry on the stream is balanced and ordered.
-   Statements only; every proof is `exact <lemma>` from Proofs/EngineTelemetry.v. *)
+   Statements only; every proof is `exact <lemma>` from Proofs/EngineTelemetry.v and Proofs/RunnerStream.v. *)
 From Coq Require Import List ZArith Bool PeanoNat.
 Import ListNotations.
-From WF Require Import Model.Engine Proofs.EngineCap Proofs.EngineSlots Proofs.EngineTelemetry.
+From WF Require Import Model.Engine Model.Runner Proofs.EngineCap Proofs.EngineSlots Proofs.EngineTelemetry Proofs.RunnerStream.
 Open Scope Z_scope.
 
 (* The telemetry automaton of one step, restated in full: `open` is the list of worker ids whose
@@ -111,3 +111,42 @@ Example C35_nonvacuous :
   end.
 Proof. vm_compute. repeat split; repeat constructor; auto. Qed.
 Print Assumptions C35_nonvacuous.
+
+(* ---- the run loop (Model/Runner.v): the stream that is really published, for EVERY schedule ----
+   While the run is live, whatever the order in which worker bodies finish (with any result lists and sends), whatever
+   is delivered from outside and however the clock advances: the published stream is exactly the publish commands the
+   reducer returned along the processed-tick log, in command order (`run_cmds` folds the reducer over the log and
+   concatenates the command lists). *)
+Theorem C35_run_loop_stream_is_log_commands : forall P s e now acts,
+  Runner.outcome (run_at P s e now acts) = ORunning ->
+  exists cs, run_cmds P s (tlog (run_at P s e now acts)) = Ok (st (run_at P s e now acts), cs) /\
+             published (run_at P s e now acts) =
+             flat_map (fun c => match c with CPublish p => [p] | _ => [] end) cs.
+Proof. exact run_stream_is_log_commands. Qed.
+Print Assumptions C35_run_loop_stream_is_log_commands.
+
+(* hence the automaton statement (C35_whole_stream) and the balance statement (C35_balanced) hold of the published
+   stream of every schedule, from any start state satisfying the reducer invariants *)
+Theorem C35_run_loop_stream_telemetry : forall P s e now acts,
+  Keys_ok s -> Inv_state s -> Runner.outcome (run_at P s e now acts) = ORunning ->
+  exists cs, published (run_at P s e now acts) = flat_map (fun c => match c with CPublish p => [p] | _ => [] end) cs /\
+             Forall2 (tel_rel cs) (workers s) (workers (st (run_at P s e now acts))) /\
+             Forall2 (count_rel cs) (workers s) (workers (st (run_at P s e now acts))).
+Proof. exact run_stream_telemetry. Qed.
+Print Assumptions C35_run_loop_stream_telemetry.
+
+(* non-vacuity: a live run that has published PREPARING-free RUNNING / NOT_RUNNING pairs and is still running one body *)
+Example C35_run_loop_nonvacuous :
+  let c acc n := {| accepts := acc; nworkers := n; pol := None |} in
+  let wk acc n := {| w_cfg := c acc n; queue := []; inprogress := []; collected := []; waiters := [] |} in
+  let s0 := {| running := true;
+               cfg := {| c_handler_for := []; c_handlers := []; c_start := [0]; c_stop := [9];
+                         c_inputreq := [8]; c_ty_stepfailed := 7 |};
+               workers := [(1, wk [0] 1%nat); (2, wk [1] 2%nat)] |} in
+  let ev ty i := {| ety := ty; eid := i; eattrs := [] |} in
+  let r := run_at (fun _ _ _ _ => PStop) s0 (ev 0 1) 100 [AWorkerDone 1 0%nat [] [RResult (OEvent (ev 1 6))]] in
+  Runner.outcome r = ORunning /\
+  length (filter (fun p => match p with PStep _ _ _ _ _ => true | _ => false end) (published r)) = 3%nat /\
+  map (fun p => length (inprogress (snd p))) (workers (st r)) = [0; 1]%nat.
+Proof. vm_compute. repeat split; reflexivity. Qed.
+Print Assumptions C35_run_loop_nonvacuous.
